@@ -837,6 +837,27 @@ func (g *Gen) buildEntries(sv reflect.Value, f *FieldInfo, path []PathElem, dept
 			k0.Set(reflect.ValueOf(&x2))
 			g.Tags["key-text-collision"]++
 		}
+		if !isTwin && twin == nil && keyPool == nil && len(strKeys) >= 1 && g.Opt.Hostile && g.coin(0.15) {
+			// a sibling entry whose (first string) key is this entry's key behind something that looks
+			// like a module prefix: "x" and "m:x" are different keys
+			allPtr := true
+			for _, kf := range kfs {
+				if fv := ent.Elem().Field(kf.Idx); fv.Kind() != reflect.Ptr || fv.IsNil() {
+					allPtr = false
+				}
+			}
+			if x := ent.Elem().Field(strKeys[0].Idx).Elem().String(); allPtr && x != "" && !strings.Contains(x, ":") {
+				twin = map[int]reflect.Value{}
+				for _, kf := range kfs {
+					c := reflect.New(ent.Elem().Field(kf.Idx).Type().Elem())
+					c.Elem().Set(ent.Elem().Field(kf.Idx).Elem())
+					twin[kf.Idx] = c
+				}
+				px := string(rune('a'+g.Rng.Intn(26))) + ":" + x
+				twin[strKeys[0].Idx] = reflect.ValueOf(&px)
+				g.Tags["key-prefix-twin"]++
+			}
+		}
 		ks := PathElem{Name: "k", Keys: g.C.EntryKeys(ent), Pos: -1}.String()
 		if seen[ks] {
 			continue
